@@ -100,8 +100,24 @@ func build(s Spec) *engine.Scenario {
 			authenticates = s.N/8 >= saltLen+2+16
 			postAuthInvalid = authenticates
 			region = "addr-chunk"
-			if s.N/8 >= len(world.EncodeStream(key, 7, world.Addr("93.184.216.34:80"))) {
-				region = "data-chunk"
+			if off := s.N / 8; off >= len(world.EncodeStream(key, 7, world.Addr("93.184.216.34:80"))) {
+				// which block (length block or payload block of a chunk) fails, and how much follows it
+				region = "data-chunk,trailing<18"
+				pos := len(world.EncodeStream(key, 7, world.Addr("93.184.216.34:80")))
+				for _, n := range []int{40, 25} {
+					for _, blk := range []int{2 + 16, n + 16} {
+						if off >= pos && off < pos+blk {
+							trailing := len(wire) - (pos + blk)
+							if s.Client == "M" {
+								trailing += 100
+							}
+							if trailing >= 18 {
+								region = "data-chunk,trailing>=18"
+							}
+						}
+						pos += blk
+					}
+				}
 			}
 		case "replay":
 			probe = wire
